@@ -428,7 +428,7 @@ func (ctx Ctx) packageMethod(f *ast.SelectorExpr,
 	//  GooseLang, so it's ok to skip the arguments.
 	//
 	// See https://github.com/mit-pdos/goose-nfsd/blob/master/util/util.go
-	if isIdent(f.X, "util") && f.Sel.Name == "DPrintf" {
+	if isIdent(f.X, "util") && f.Sel.Name == "DPrintf" && len(args) >= 2 {
 		return coq.NewCallExpr(coq.GallinaIdent("util.DPrintf"),
 			ctx.expr(args[0]),
 			ctx.expr(args[1]),
@@ -499,7 +499,7 @@ func (ctx Ctx) selectorMethod(f *ast.SelectorExpr, call *ast.CallExpr) coq.Expr 
 	case *types.Struct:
 		structInfo, ok := ctx.getStructInfo(selectorType)
 		if !ok {
-			panic("expected struct")
+			ctx.unsupported(f, "method or field call on unnamed struct type %v", selectorType)
 		}
 
 		// see if f.Sel.Name is a struct field, and translate accordingly if so
@@ -710,6 +710,9 @@ func (ctx Ctx) copyExpr(n ast.Node, dst ast.Expr, src ast.Expr) coq.Expr {
 		ctx.unsupported(n, "copy from non-slice type %v", ctx.typeOf(src))
 		return nil
 	}
+	if _, ok := ctx.typeOf(dst).Underlying().(*types.Slice); !ok {
+		ctx.unsupported(n, "copy to non-slice type %v", ctx.typeOf(dst))
+	}
 	e := sliceElem(ctx.typeOf(dst).Underlying())
 	return coq.NewCallExpr(coq.GallinaIdent("SliceCopy"),
 		ctx.coqTypeOfType(n, e),
@@ -749,6 +752,9 @@ func (ctx Ctx) callExpr(s *ast.CallExpr) coq.Expr {
 		if len(s.Args) != 2 {
 			// append(s) has no element, append(s, a, b) would lose b
 			ctx.unsupported(s, "append of other than one element or one slice")
+		}
+		if _, ok := ctx.typeOf(s.Args[0]).Underlying().(*types.Slice); !ok {
+			ctx.unsupported(s, "append to non-slice type %v", ctx.typeOf(s.Args[0]))
 		}
 		elemTy := sliceElem(ctx.typeOf(s.Args[0]).Underlying())
 		if s.Ellipsis == token.NoPos {
